@@ -479,16 +479,34 @@ impl<'a> Judge<'a> {
                 Ok(())
             }
             PItem::RunFrame { frame, how, items, pre, end, post, .. } => {
-                let Some(slot) = frame else {
-                    // no captured frame available: the items simply run here
-                    self.check(*pre, a, cx, "run-frame without a frame")?;
-                    self.items(items, a, cx)?;
-                    if self.unwinding {
-                        return Ok(());
-                    }
-                    return self.check(*post, a, cx, "after run-frame without a frame");
-                };
                 let elsewhere = *how == RunHow::OtherThread;
+                let Some(slot) = frame else {
+                    if !elsewhere {
+                        // no captured frame available: the items simply run here
+                        self.check(*pre, a, cx, "run-frame without a frame")?;
+                        self.items(items, a, cx)?;
+                        if self.unwinding {
+                            return Ok(());
+                        }
+                        return self.check(*post, a, cx, "after run-frame without a frame");
+                    }
+                    // … or on a fresh thread that has nothing
+                    let inner = if a.unknown { a } else { NOTHING };
+                    let saved_after = std::mem::replace(&mut self.after_panic, false);
+                    let saved = std::mem::replace(&mut self.in_header_scope, false);
+                    self.check(*pre, inner, cx, "fresh thread without a frame")?;
+                    self.items(items, inner, cx)?;
+                    self.in_header_scope = saved;
+                    if self.unwinding {
+                        self.exit_panic_far_thread = true;
+                        self.caught(false);
+                    }
+                    self.after_panic = saved_after;
+                    if let Some(end) = end {
+                        self.check(*end, inner, cx, "fresh thread without a frame, at its end")?;
+                    }
+                    return self.check(*post, a, cx, "after the fresh thread without a frame");
+                };
                 let c = self.captured.get(slot).copied().unwrap_or(Active { unknown: true, ..NOTHING });
                 let inner = if a.unknown || c.unknown {
                     Active { unknown: true, ..a }
